@@ -572,7 +572,7 @@ def run(prog: Program, ctx: Ctx, max_steps=200000, routine_info=None, sanitize=T
                 # the caller's own low-water mark must include what the callee consumed
                 touch_low(lowmark)
                 if trace_calls:
-                    ctx.trace.append(("ret", f.label, tuple(stack)))
+                    ctx.trace.append(("ret", f.label, tuple(stack), len(callstack)))
                 nextpc = f.retpc
             elif op == "frame_dig":
                 if not callstack or not callstack[-1].clear:
